@@ -63,6 +63,10 @@ class Item:
     rewrites: tuple = ()
     canary: bool = True
     unit_rewrites: bool = True
+    split: int = 0          # verify a big `match` function as N parts (by state constructor), see split_parts()
+    contract_q: str = None  # look contracts up under this name (used by the parts)
+    extra_requires: str = ''
+    emit_name: str = None
     qname: str = None
 
     def q(self):
@@ -95,6 +99,9 @@ class Contracts:
         self.loops = {}
         self.proofs = {}
         self.closures = {}
+        self.autoreveal = {}
+        self.scsfacts = set()
+        self.strlits = set()
         self.path = path
         self.shared = set()     # keys that come from a shared file (no unused check)
         if path is not None:
@@ -122,8 +129,8 @@ class Contracts:
             elif s.startswith('@ret ') and cur and cur[0] == 'fn':
                 self.ret[cur[1]] = s[5:].strip()
             elif s.startswith('@loop '):
-                parts = s.split()
-                cur = ('loop', parts[1], parts[2], ln)
+                m = re.match(r'@loop\s+(\S+)\s+(.*)$', s)
+                cur = ('loop', m.group(1), m.group(2).strip(), ln)
                 buf = []
             elif s.startswith('@closure '):
                 parts = s.split()
@@ -133,8 +140,16 @@ class Contracts:
                 cur[4]['params'] = s[8:].strip()
             elif s.startswith('@ret ') and cur and cur[0] == 'closure':
                 cur[4]['ret'] = s[5:].strip()
+            elif s.startswith('@scsfacts '):
+                self.scsfacts.add(s.split()[1])
+            elif s.startswith('@strlits '):
+                self.strlits.add(s.split()[1])
+            elif s.startswith('@autoreveal '):
+                parts = s.split()
+                kv = dict(x.split('=', 1) for x in parts[2:])
+                self.autoreveal[parts[1]] = kv
             elif s.startswith('@proof '):
-                m = re.match(r'@proof\s+(\S+)\s+(entry|before|after)(?:\s+/(.*)/\s*(\d+)?)?\s*$', s)
+                m = re.match(r'@proof\s+(\S+)\s+(entry|before|after|loopstart)(?:\s+/(.*)/\s*(\d+)?)?\s*$', s)
                 if not m:
                     raise ExtractError('%s:%d bad @proof' % (path, ln))
                 cur = ('proof', m.group(1), m.group(2), m.group(3), int(m.group(4) or 0), ln)
@@ -159,6 +174,47 @@ class Contracts:
                 raise ExtractError('%s:%d text outside a block' % (path, ln))
         if shared:
             self.shared |= set(self.fn) - before
+
+
+def spec_callgraph(path):
+    """opaque spec fns of a prelude file and their call graph; plus `Ctor => fn(` dispatch entries."""
+    text = open(path).read()
+    fns = {}
+    opaque = set()
+    for m in re.finditer(r'((?:#\[verifier::opaque\]\s*)?)pub open spec fn (\w+)\s*\(', text):
+        name = m.group(2)
+        i = text.index('{', m.end())
+        # skip `decreases` etc: find body start = first '{' at depth 0 after the signature's ')'
+        depth = 0
+        j = i
+        while True:
+            if text[j] == '{':
+                depth += 1
+            elif text[j] == '}':
+                depth -= 1
+                if depth == 0:
+                    break
+            j += 1
+        fns[name] = text[i:j + 1]
+        if m.group(1):
+            opaque.add(name)
+    calls = {n: set(c for c in re.findall(r'\b(\w+)\s*\(', b) if c in fns and c != n) for n, b in fns.items()}
+    return fns, opaque, calls
+
+
+def reveal_closure(fns, opaque, calls, roots):
+    seen = []
+    todo = list(roots)
+    visited = set()
+    while todo:
+        f = todo.pop()
+        if f in visited or f not in fns:
+            continue
+        visited.add(f)
+        if f in opaque:
+            seen.append(f)
+        todo.extend(calls.get(f, ()))
+    return sorted(seen)
 
 
 class Gen:
@@ -335,10 +391,87 @@ class UnitBuild:
             self.functions.append(dict(qname=q, file=it.file, line=line0, mode='plain:' + it.kind,
                                        gen_start=g0 + 1, gen_end=len(self.gen.lines)))
             return
+        if it.split and os.environ.get('VERIF_NOSPLIT') != '1':
+            self.emit_split(it, text, line0)
+            return
         self.emit_fn(it, text, line0)
 
+    def emit_split(self, it, text, line0):
+        """Case split for verification only: the function whose body is one big `match` over the
+        tokenizer state is verified as N functions NAME__partI.  Part I keeps, verbatim and in order,
+        exactly the arms whose pattern starts with one of its state constructors, requires that the
+        state is one of those constructors, and ends with `_ => unreachable!()`.  Every constructor is
+        in exactly one part (checked here), so the parts together cover the original match; the
+        original function is emitted with its contract and no body (callers use the contract)."""
+        import dataclasses
+        m = mask(text)
+        mm = re.search(r'match self\.state\.get\(\) \{', m)
+        if not mm:
+            raise ExtractError('split: no `match self.state.get()` in ' + it.q())
+        lb = mm.end() - 1
+        rb = match_delim(m, lb)
+        inner0 = lb + 1
+        # arms: split at depth-0 commas / closing braces followed by comma
+        arms = []
+        i = inner0
+        start = inner0
+        depth = 0
+        while i < rb:
+            ch = m[i]
+            if ch in '([{':
+                i = match_delim(m, i) + 1
+                # an arm whose body is a block may end without a comma
+                j = i
+                while j < rb and m[j] in ' \t\n':
+                    j += 1
+                if m[i - 1] == '}' and j < rb and m[j] != ',' and re.match(r'\s*(//[^\n]*\n\s*)*(states::|_\s*=>)', text[i:rb]):
+                    arms.append((start, i))
+                    start = i
+                continue
+            if ch == ',':
+                arms.append((start, i + 1))
+                start = i + 1
+            i += 1
+        if text[start:rb].strip():
+            tail = text[start:rb]
+            if re.search(r'states::', mask(tail)):
+                arms.append((start, rb))
+                start = rb
+        ctor_of = []
+        for (a, b) in arms:
+            cm = re.search(r'states::(\w+)', m[a:b])
+            if not cm:
+                raise ExtractError('split: arm without a states:: pattern in ' + it.q())
+            ctor_of.append(cm.group(1))
+        ctors = []
+        for c in ctor_of:
+            if c not in ctors:
+                ctors.append(c)
+        # balance by text size
+        size = {c: sum(b - a for (a, b), cc in zip(arms, ctor_of) if cc == c) for c in ctors}
+        parts = [[] for _ in range(it.split)]
+        load = [0] * it.split
+        for c in sorted(ctors, key=lambda c: -size[c]):
+            k = load.index(min(load))
+            parts[k].append(c)
+            load[k] += size[c]
+        assert sorted(sum(parts, [])) == sorted(ctors)
+        self.split_info = dict(function=it.q(), constructors=ctors, parts=parts)
+        for k, cs in enumerate(parts, 1):
+            if not cs:
+                continue
+            kept = ''.join(text[a:b] if cc in cs else re.sub(r'[^\n]', ' ', text[a:b]) for (a, b), cc in zip(arms, ctor_of))
+            ptext = text[:inner0] + kept + ' _ => unreachable!(), ' + re.sub(r'[^\n]', ' ', text[arms[-1][1]:rb]) + text[rb:]
+            req = ' || '.join('old(self).abs().state is %s' % c for c in cs)
+            pit = dataclasses.replace(it, split=0, contract_q=it.q(), extra_requires=req,
+                                      attrs=(it.attrs + '\n' if it.attrs else '') + '#[verifier::spinoff_prover]',
+                                      emit_name='%s__part%d' % (it.name, k), qname='%s__part%d' % (it.q(), k))
+            self.emit_fn(pit, ptext, line0)
+        ait = dataclasses.replace(it, split=0, mode='assume')
+        self.emit_fn(ait, text, line0)
+
     def emit_fn(self, it, text, line0, canary=False):
-        q = it.q()
+        q = it.contract_q or it.q()
         m = mask(text)
         lb = None
         # body brace: first `{` at paren depth 0
@@ -377,39 +510,168 @@ class UnitBuild:
             ty = sig[arrow + 2:].strip()
             sig = sig[:arrow] + '-> (%s: %s)' % (ret, ty) + '\n'
             self.count('S-retname', 1)
+        if it.emit_name:
+            sig = re.sub(r'\bfn\s+%s\b' % re.escape(it.name), 'fn %s' % it.emit_name, sig, count=1)
+        if it.extra_requires:
+            if re.search(r'(?m)^\s*requires\b', ctext):
+                ctext = re.sub(r'(?m)^(\s*)requires\b', r'\1requires ' + it.extra_requires.replace('\\', '\\\\') + ',', ctext, count=1)
+            else:
+                ctext = '    requires ' + it.extra_requires + ',\n' + ctext
         if canary:
-            sig = re.sub(r'\bfn\s+%s\b' % re.escape(it.name), 'fn %s__canary' % it.name, sig, count=1)
+            sig = re.sub(r'\bfn\s+%s\b' % re.escape(it.emit_name or it.name), 'fn %s__canary' % (it.emit_name or it.name), sig, count=1)
         g0 = len(self.gen.lines)
         if it.attrs:
             self.gen.add(it.attrs, 'gen')
         dev_assume = os.environ.get('VERIF_DEV_ASSUME', '')
         if dev_assume.startswith('!'):
-            dev_hit = q not in dev_assume[1:].split(',')
+            dev_hit = it.q() not in dev_assume[1:].split(',')
         else:
-            dev_hit = bool(dev_assume) and q in dev_assume.split(',')
+            dev_hit = bool(dev_assume) and it.q() in dev_assume.split(',')
         if it.mode == 'assume' or dev_hit:
             self.gen.add('#[verifier::external_body]', 'gen')
             self.gen.add(sig.rstrip(), 'repo', it.file, line0, q)
             if ctext.strip():
                 self.gen.add(ctext, 'contract', self.contracts.path, contract[1] + 1, q)
             self.gen.add('{ unimplemented!() }', 'gen')
-            self.functions.append(dict(qname=q, file=it.file, line=line0, mode='assume',
+            self.functions.append(dict(qname=it.q(), file=it.file, line=line0, mode='assume',
                                        gen_start=g0 + 1, gen_end=len(self.gen.lines)))
             return
         body = text[lb:rb + 1]
         bm = m[lb:rb + 1]
         # loop contracts
+        loop_bodies = []
         loops = find_loops(bm)
         ldict = self.contracts.loops.get(q, {})
         for k, (kw, kpos, lpos) in enumerate(loops, 1):
-            lt = ldict.get(str(k)) or ldict.get('*')
-            if lt is None:
+            pre = bm[max(0, kpos - 160):kpos]
+            texts = []
+            for sel, lt in ldict.items():
+                if sel == str(k) or sel == '*' or (sel.startswith('/') and sel.endswith('/') and re.search(sel[1:-1], pre)):
+                    self.used_loops.add((q, sel))
+                    texts.append(lt)
+            if not texts:
                 continue
-            self.used_loops.add((q, str(k) if str(k) in ldict else '*'))
-            t = lt[0]
-            if canary:
-                pass
-            inserts.append((lpos, ('\n' + t + '\n', 'contract', lt[1] + 1)))
+            # the match-arm pattern guarding this loop, if any: `PAT => loop {`
+            arm = None
+            am = re.search(r'([\w:]+(?:\([^()]*(?:\([^()]*\))?[^()]*\))?)\s*=>\s*$', pre)
+            if am:
+                arm = body[max(0, kpos - 160):kpos][am.start(1):am.end(1)]
+            merged = {}
+            order = []
+            for lt in texts:
+                # merge clause groups of several blocks: invariant / invariant_except_break / ensures / decreases
+                cur_kw = None
+                for line in lt[0].split('\n'):
+                    mm = re.match(r'\s*(invariant_except_break|invariant|ensures|decreases)\b(.*)$', line)
+                    if mm:
+                        cur_kw = mm.group(1)
+                        if cur_kw not in merged:
+                            merged[cur_kw] = []
+                            order.append(cur_kw)
+                        rest = mm.group(2).strip()
+                        if rest:
+                            merged[cur_kw].append(rest)
+                    elif line.strip() and cur_kw:
+                        merged[cur_kw].append(line.strip())
+            t = ''
+            for kw2 in ['invariant_except_break', 'invariant', 'ensures', 'decreases']:
+                if kw2 in merged:
+                    t += '    ' + kw2 + '\n' + ''.join('        ' + c + '\n' for c in merged[kw2])
+            if '$ARM' in t:
+                if arm is None:
+                    raise ExtractError('loop contract uses $ARM but loop #%d of %s is not a match arm' % (k, q))
+                t = t.replace('$ARM', arm)
+            inserts.append((lpos, ('\n' + t, 'contract', texts[0][1] + 1)))
+            loop_bodies.append((k, lpos, match_delim(bm, lpos)))
+        if q in self.contracts.scsfacts:
+            def char_ord(lit):
+                lit = lit.strip()
+                inner = lit[1:-1]
+                esc = {'\\r': 13, '\\n': 10, '\\t': 9, '\\0': 0, "\\'": 39, '\\"': 34, '\\\\': 92}
+                if inner in esc:
+                    return esc[inner]
+                mm = re.match(r'\\x([0-9a-fA-F]{2})$', inner)
+                if mm:
+                    return int(mm.group(1), 16)
+                if len(inner) == 1:
+                    return ord(inner)
+                raise ExtractError('scsfacts: cannot evaluate char literal ' + lit)
+            for k, (kw, kpos, lpos) in enumerate(loops, 1):
+                rbp = match_delim(bm, lpos)
+                seen = []
+                txt = ''
+                for mm in re.finditer(r'small_char_set!\(', bm[lpos:rbp]):
+                    a0 = lpos + mm.end() - 1
+                    a1 = match_delim(bm, a0)
+                    args = body[a0 + 1:a1]
+                    lits = re.findall(r"'(?:\\.[0-9a-fA-F]{0,2}|[^'\\])'", args)
+                    if not lits or args in seen:
+                        continue
+                    seen.append(args)
+                    ords = [char_ord(l) for l in lits]
+                    if len(ords) not in (3, 4, 5, 8) or max(ords) >= 64:
+                        raise ExtractError('scsfacts: unsupported small_char_set!(%s)' % args)
+                    o = ', '.join(str(x) for x in ords)
+                    txt += 'assert(small_char_set!(%s).bits == scs%d(%s)); lemma_scs%d(%s);\n' % (args.strip(), len(ords), o, len(ords), o)
+                if txt:
+                    inserts.append((lpos + 1, ('\nproof {\n' + txt + '}\n', 'contract', None)))
+                    self.count('S-scsfacts', 1)
+        if q in self.contracts.strlits:
+            def lit_chars(lit):
+                out = []
+                i = 0
+                while i < len(lit):
+                    if lit[i] == '\\':
+                        nx = lit[i + 1]
+                        if nx == 'u':
+                            j = lit.index('}', i)
+                            out.append("'\\u{%s}'" % lit[i + 3:j])
+                            i = j + 1
+                            continue
+                        out.append("'\\%s'" % nx)
+                        i += 2
+                    else:
+                        out.append("'%s'" % (lit[i] if lit[i] != "'" else "\\'"))
+                        i += 1
+                return out
+            for k, (kw, kpos, lpos) in enumerate(loops, 1):
+                rbp = match_delim(bm, lpos)
+                seen = []
+                txt = ''
+                for mm in re.finditer(r'(?:append_comment\s+|eq_str\(|push_slice\()"', bm[lpos:rbp]):
+                    a0 = lpos + mm.end()
+                    a1 = bm.index('"', a0)
+                    lit = body[a0:a1]
+                    if lit in seen:
+                        continue
+                    seen.append(lit)
+                    cs = lit_chars(lit)
+                    txt += 'reveal_strlit("%s"); assert("%s"@ =~= seq![%s]);\n' % (lit, lit, ', '.join(cs))
+                    txt += 'assert forall|c__: Seq<char>| #[trigger] (c__ + "%s"@) =~= c__%s by {}\n' % (lit, ''.join('.push(%s)' % c for c in cs))
+                if txt:
+                    inserts.append((lpos + 1, ('\nproof {\n' + txt + '}\n', 'contract', None)))
+                    self.count('S-strlits', 1)
+        ar = self.contracts.autoreveal.get(q)
+        if ar:
+            fns, opaque, calls = spec_callgraph(os.path.join(VERIF, 'contracts', ar['spec']))
+            table = {}
+            for d in ar['dispatch'].split(','):
+                for mm in re.finditer(r'State::(\w+)[^=\n]*=>\s*(\w+)\(', fns.get(d, '')):
+                    table.setdefault(mm.group(1), mm.group(2))
+            always = [x for x in ar.get('always', '').split(',') if x]
+            for k, (kw, kpos, lpos) in enumerate(loops, 1):
+                pre = bm[max(0, kpos - 160):kpos]
+                am = re.search(r'states::(\w+)[^=]*=>\s*$', pre)
+                if not am:
+                    continue
+                top = table.get(am.group(1))
+                if top is None:
+                    raise ExtractError('autoreveal: no spec dispatch entry for state %s' % am.group(1))
+                stop = set(x for x in ar.get('stop', '').split(',') if x)
+                names = always + [n for n in reveal_closure(fns, opaque, calls, [top]) if n not in always and n not in stop]
+                txt = '\nproof {\n' + ' '.join('reveal(%s);' % n for n in names) + '\n}\n'
+                inserts.append((lpos + 1, (txt, 'contract', None)))
+                self.count('S-autoreveal', 1)
         # closure contracts: `|p| EXPR` => `|params| -> (ret) <contract> { EXPR }`
         cdict = self.contracts.closures.get(q, {})
         if cdict:
@@ -441,6 +703,16 @@ class UnitBuild:
         for idx, (where, rx, nth, ptext, pln) in enumerate(self.contracts.proofs.get(q, [])):
             if ptext.count('{') != ptext.count('}'):
                 raise ExtractError('unbalanced proof block for ' + q)
+            if where == 'loopstart':
+                hit = False
+                for (kw, kpos, lpos) in loops:
+                    rbp = match_delim(bm, lpos)
+                    if rx is None or re.search(rx, bm[lpos:rbp]):
+                        inserts.append((lpos + 1, ('\nproof {\n' + ptext + '\n}\n', 'contract', pln + 1)))
+                        hit = True
+                if hit:
+                    self.used_proofs.add((q, idx))
+                continue
             if where == 'entry':
                 pos = 1
             else:
@@ -469,7 +741,7 @@ class UnitBuild:
             last = pos
         pending += body[last:]
         self.gen.add(pending, 'repo', it.file, cur_line, q)
-        name = q + ('__canary' if canary else '')
+        name = it.q() + ('__canary' if canary else '')
         self.functions.append(dict(qname=name, file=it.file, line=line0,
                                    mode='canary' if canary else 'verify',
                                    gen_start=g0 + 1, gen_end=len(self.gen.lines),
